@@ -40,8 +40,11 @@ var defs = map[string]propDef{
 		map[string]int64{"dca_linked": 1000, "dca_via_block_cache": 1000, "growth_finalized_descends_from_lfb": 100, "rollback_lfb_single_chain": 2000, "rollback_rollback_to_common_ancestor": 100, "sibling_lfb_single_chain": 1000, "sibling_scenarios[sibling-of-lfb,hidden=true]": 200}},
 	"C39": {"exploration", "real SimpleNodes.reduce on generated candidate layouts (stakes with many ties, previous sets, limits, percentages, seeds) vs size/pinned/stake-order/determinism oracles, " +
 		"id renaming through random bijections, and selection frequencies over many seeds inside every class of interchangeable candidates (same stake, same previous-set membership); " +
-		"distinct = (n, limit, pinned count, tie-class position/size, cut-off inside tie) layout classes", runC39,
-		map[string]int64{"size_exact": 500, "tie_class_frequency": 50, "rename_keeps_stake_profile": 500}},
+		"real DKGMinerNodes.reduceNodes (final and non-final) on DKG miner lists created with calculateTKN at one max_n, stored and read back, candidates dropped between the phases, max_n then lowered / raised / unchanged, " +
+		"candidate counts around both limits (every combination in a small box plus seeded larger ones): |selected| == min(max_n in force, candidates) and the same pinned/stake-order/determinism oracles; " +
+		"distinct = (n, limit, pinned count, tie-class position/size, cut-off inside tie) layout classes and (final, max_n change, candidates vs both limits) classes", runC39,
+		map[string]int64{"size_exact": 500, "tie_class_frequency": 50, "rename_keeps_stake_profile": 500,
+			"dkg_size_exact": 1000, "dkg_max_n_lowered_candidates_between_the_two_limits": 50, "dkg_max_n_raised_candidates_between_the_two_limits": 50, "dkg_max_n_unchanged": 50, "dkg_nonfinal_keeps_candidates": 200}},
 	"C40": {"exploration", "real roundStartingStorage (Put/Get/Prune/FindRoundIndex/GetLatest) and real Chain.SetMagicBlock/GetMagicBlock/GetMagicBlockNoOffset/GetPrevMagicBlock/PruneRoundStorage: every insertion order of every set of <=N starting rounds " +
 		"drawn from a spaced grid, every query round in range +- the view-change offset, every prune point; oracle = reference floor lookup on a sorted slice; " +
 		"operation sequences (every sequence of <= L Put/Prune operations over 4 starts on the storage and of SetMagicBlock/PruneRoundStorage on the chain, plus seeded longer ones: Put in any order, again for retained and for pruned starts, " +
@@ -49,9 +52,12 @@ var defs = map[string]propDef{
 		"distinct = (start set, insertion order) and sequences of operation kinds", runC40,
 		map[string]int64{"storage_get_floor": 10000, "chain_get_magic_block": 10000, "prune_answers_unchanged": 10000, "chain_prune_answers_unchanged": 1000,
 			"seq_storage_step_judged": 10000, "seq_chain_step_judged": 10000, "seq_storage_get_latest": 10000, "seq_chain_get_magic_block": 100000}},
-	"C42": {"exploration", "real Chain.IsBlockSharder/IsBlockSharderFromHash/CanShardBlockWithReplicators on sharder pools built in permuted insertion orders (nodes made by node.NewNode and by magic-block JSON decoding), " +
-		"seeded random block hashes, replicator counts {0,1,k,n,n+1}; oracle = identical responsible id sets across orders and entry points, |set| >= k when k <= n, k=0 => everyone; distinct = (n, k, |set|, construction) classes", runC42,
-		map[string]int64{"order_independent_set": 1000, "size_at_least_k": 1000, "k0_everyone": 100}},
+	"C42": {"exploration", "real Chain.IsBlockSharder/IsBlockSharderFromHash/CanShardBlockWithReplicators on sharder pools built in permuted insertion orders (nodes made by node.NewNode and by magic-block JSON decoding) " +
+		"and on copies of those pools made by the real code (Pool.Clone, MagicBlock.Clone, Block.Clone of the block carrying the magic block, a clone of a clone, clone of a decoded magic block, msgp encode/decode), " +
+		"seeded random block hashes, replicator counts {0,1,k,n,n+1}; oracle = identical responsible id sets across orders and entry points and between a copy and the pool it was made from, |set| >= k when k <= n, k=0 => everyone; " +
+		"distinct = (n, k, |set|, construction) classes", runC42,
+		map[string]int64{"order_independent_set": 1000, "size_at_least_k": 1000, "k0_everyone": 100, "copy_same_set_as_source": 1000,
+			"copy_same_set_as_source[pool-clone]": 200, "copy_same_set_as_source[magic-block-clone]": 200, "copy_same_set_as_source[block-clone]": 200}},
 }
 
 // Main is the engine entry point. The work runs in one child process under a watchdog: a call that never returns makes
